@@ -87,6 +87,7 @@ func safeRandom(r *rand.Rand) string {
 }
 
 var numSmall = []string{"0", "1", "-1", "2", "3", "7", "10", "16", "36", "37", "64", "100", "255", "256", "-2", "-100", "(num 0)", "(num 1)", "(num -1)", "(num 5)", "(num 200)", "0x10", "0o17", "0b11", "1_0"}
+var numCore = []string{"0", "1", "-1", "2", "-2", "(num 0)", "(num -1)", "(num -3)"}
 var numMid = []string{"65536", "1000000", "-1000000", "2147483647", "2147483648", "-2147483649", "4294967296", "4294967297", "(num 1114111)", "(num 1114112)", "55296", "1099511627776"}
 var numHuge = []string{"9007199254740992", "9007199254740993", "4611686018427387904", "9223372036854775807", "9223372036854775808", "-9223372036854775808", "-9223372036854775809",
 	"18446744073709551615", "18446744073709551616", "1000000000000000000000000000000", "-1000000000000000000000000000000", "(num 100000000000000000000)", "(num 9223372036854775807)", "(* 9223372036854775807 9223372036854775807)"}
@@ -121,6 +122,9 @@ var miscPool = []val{
 func numVal(r *rand.Rand, mag int) val {
 	switch mag {
 	case magSmall:
+		if r.Intn(2) == 0 {
+			return val{numCore[r.Intn(len(numCore))], "num", magSmall}
+		}
 		return val{numSmall[r.Intn(len(numSmall))], "num", magSmall}
 	case magMid:
 		return val{numMid[r.Intn(len(numMid))], "num", magMid}
@@ -165,6 +169,9 @@ func kindVal(r *rand.Rand, kind string) val {
 
 // anyVal draws from the whole pool.
 func anyVal(r *rand.Rand) val {
+	if r.Intn(100) < 7 {
+		return val{"$nil", "nil", 0}
+	}
 	switch k := r.Intn(10); {
 	case k < 3:
 		return strVal(r)
